@@ -80,6 +80,9 @@ def cases(tier: str, seed: int) -> List[Dict[str, Any]]:
         for m, r in [((1, 2), (3, 2)), ((4, 1), (1, 4)), ((1, 1), (1, 1))]:
             out.append({"kind": "wiring", "L": L, "m": list(m), "r": list(r), "post": ["bfloat16", "half", "float", "double", "deepcopy"],
                         "fresh": list(m) == [1, 1]})
+            # checkpointing: state_dict round trips (onto itself, strict and non-strict), pickle and torch.save / load
+            out.append({"kind": "wiring", "L": L, "m": list(m), "r": list(r),
+                        "post": ["load_own_state", "load_own_state_nonstrict", "pickle", "torch_save", "load_own_state", "deepcopy", "load_own_state"]})
     # the decoder built with POSITIONAL arguments in the documented order (hidden, vocab, layers, heads, dropout_p, rule)
     for L in (1, 2, 5):
         for m, r in [((1, 2), (3, 2)), ((4, 1), (1, 4)), ((2, 1), (1, 4))]:
@@ -241,7 +244,23 @@ def run_case(case: Dict[str, Any]) -> Dict[str, Any]:
 
             if viol:
                 break
-            dec = {"bfloat16": lambda d_: d_.to(torch.bfloat16), "half": lambda d_: d_.half(), "float": lambda d_: d_.float(),
+            def _load_own(d_: Any, strict: bool = True) -> Any:
+                d_.load_state_dict(copy.deepcopy(d_.state_dict()), strict=strict)
+                return d_
+
+            def _torch_save(d_: Any) -> Any:
+                import io
+
+                buf = io.BytesIO()
+                torch.save(d_, buf)
+                buf.seek(0)
+                return torch.load(buf, weights_only=False)
+
+            import pickle as _pickle
+
+            dec = {"load_own_state": _load_own, "load_own_state_nonstrict": lambda d_: _load_own(d_, False),
+                   "pickle": lambda d_: _pickle.loads(_pickle.dumps(d_)), "torch_save": _torch_save,
+                   "bfloat16": lambda d_: d_.to(torch.bfloat16), "half": lambda d_: d_.half(), "float": lambda d_: d_.float(),
                    "double": lambda d_: d_.double(), "deepcopy": copy.deepcopy}[step_](dec)
             for i, layer in enumerate(dec.layers):
                 for nm, idx in (("mhsa_tau", 2 * i), ("mlp_tau", 2 * i + 1)):
